@@ -66,6 +66,13 @@ def parseFault? (s : String) : Option (Fault × String) :=
   | ["rename", e] => some (.rename, e)
   | _ => none
 
+def parseCb? (s : String) : Option CbMode :=
+  match s with
+  | "p" => some .propagate
+  | "s" => some .swallowStop
+  | "k" => some .swallowKeep
+  | _ => none
+
 def showRes (r : Res) (e : String) : String :=
   match r with
   | .ok => "ok" | .invalid => "invalid" | .closed => "closed" | .cb => "cb" | .errno => "errno:" ++ e
@@ -113,18 +120,24 @@ def readerOk (umask : Nat) (old : Option FileData) (new : FileData) (acts : List
       (if (targets a).contains dstP then ok fs' else true) && go fs' as
   ok (fs0 old) && go (fs0 old) acts
 
-/-- size of the temporary file after each piece handed to bufio: change points `i:size` -/
-def midPoints (N : Nat) (pieces : List Bytes) (upto : Nat) : String :=
-  let rec go : List Bytes → Bytes → Nat → Nat → Nat → List String → List String
-    | [], _, _, _, _, acc => acc.reverse
-    | p :: ps, buf, i, total, fuel, acc =>
+/-- size of the temporary file after each piece handed to bufio, as the callback sees it after every `Write` that
+    returned nil: change points `i:size`.  `upto`: pieces handed over; `failAt`: index of the failing `write(2)`. -/
+def midPoints (N : Nat) (pieces : List Bytes) (upto : Nat) (failAt : Option Nat) : String :=
+  let rec go : List Bytes → Bytes → Nat → Nat → Nat → Nat → List String → List String
+    | [], _, _, _, _, _, acc => acc.reverse
+    | p :: ps, buf, i, total, nchunks, fuel, acc =>
       match fuel with
       | 0 => acc.reverse
       | fuel + 1 =>
         let r := bufWrite N buf p
-        let t := total + (r.1.map List.length).sum
-        go ps r.2 (i + 1) t fuel (if t ≠ total then s!"{i}:{t}" :: acc else acc)
-  let l := go pieces [] 0 0 upto []
+        let hit := match failAt with
+          | some k => decide (k < nchunks + r.1.length)
+          | none => false
+        if hit then acc.reverse                       -- this Write and all later ones return the sticky error
+        else
+          let t := total + (r.1.map List.length).sum
+          go ps r.2 (i + 1) t (nchunks + r.1.length) fuel (if t ≠ total then s!"{i}:{t}" :: acc else acc)
+  let l := go pieces [] 0 0 0 upto []
   if l.isEmpty then "-" else ",".intercalate l
 
 structure St where
@@ -135,9 +148,10 @@ structure St where
   off : Nat := 0
   live : Bool := false
 
-def scenario (N : Nat) (kind : String) (mode : Nat) (pieces : List Bytes) (fault : Fault) : Option (Res × List Act) :=
+def scenario (N : Nat) (kind : String) (mode : Nat) (pieces : List Bytes) (cb : CbMode) (fault : Fault) :
+    Option (Res × List Act) :=
   match kind with
-  | "wf" => some (writeFile tmpP dstP N mode pieces fault)
+  | "wf" => some (writeFile tmpP dstP N mode pieces cb fault)
   | "commit" => some (fileRun tmpP dstP mode pieces true fault)
   | "abort" => some (fileRun tmpP dstP mode pieces false fault)
   | _ => none
@@ -146,39 +160,39 @@ def apiObs (st : St) (r : String) : String := s!"{r} dst={showState (st.fs dstP)
 
 def step (st : St) (line : String) : St × String :=
   match words line with
-  | ["wf", old, um, mode, pcs, fault] =>
-    match parseOld? old, parseOct? um, parseOct? mode, parsePieces? pcs, parseFault? fault with
-    | some old, some um, some mode, some sizes, some (f, e) =>
+  | ["wf", old, um, mode, pcs, fault, cbm] =>
+    match parseOld? old, parseOct? um, parseOct? mode, parsePieces? pcs, parseFault? fault, parseCb? cbm with
+    | some old, some um, some mode, some sizes, some (f, e), some cb =>
       let pieces := mkPieces sizes
-      let r := writeFile tmpP dstP st.N mode pieces f
+      let r := writeFile tmpP dstP st.N mode pieces cb f
       let fs := run um (fs0 old) r.2
       let extra := if (fs tmpP).isSome then 1 else 0
       let upto := match f with
         | .callback j => j
         | _ => pieces.length
-      (st, s!"res={showRes r.1 e} dst={showState (fs dstP)} extra={extra} mid={midPoints st.N pieces upto} reader={if readerOk um old (newFile mode um pieces) r.2 then "ok" else "BAD"}")
-    | _, _, _, _, _ => (st, "bad-op")
-  | ["trace", old, um, mode, kind, pcs, fault] =>
-    match parseOld? old, parseOct? um, parseOct? mode, parsePieces? pcs, parseFault? fault with
-    | some old, some um, some mode, some sizes, some (f, e) =>
+      (st, s!"res={showRes r.1 e} dst={showState (fs dstP)} extra={extra} mid={midPoints st.N pieces upto f.writeAt} reader={if readerOk um old (newFile mode um pieces) r.2 then "ok" else "BAD"}")
+    | _, _, _, _, _, _ => (st, "bad-op")
+  | ["trace", old, um, mode, kind, pcs, fault, cbm] =>
+    match parseOld? old, parseOct? um, parseOct? mode, parsePieces? pcs, parseFault? fault, parseCb? cbm with
+    | some old, some um, some mode, some sizes, some (f, e), some cb =>
       let pieces := mkPieces sizes
-      match scenario st.N kind mode pieces f with
+      match scenario st.N kind mode pieces cb f with
       | some r =>
         let fs := run um (fs0 old) r.2
         (st, s!"seq={showSeq e r.2} res={showRes r.1 e} dst={showState (fs dstP)} tmp={showState (fs tmpP)} reader={if readerOk um old (newFile mode um pieces) r.2 then "ok" else "BAD"}")
       | none => (st, "bad-op")
-    | _, _, _, _, _ => (st, "bad-op")
-  | ["kill", old, um, mode, kind, pcs, fault, name, j] =>
-    match parseOld? old, parseOct? um, parseOct? mode, parsePieces? pcs, parseFault? fault, j.toNat? with
-    | some old, some um, some mode, some sizes, some (f, e), some j =>
+    | _, _, _, _, _, _ => (st, "bad-op")
+  | ["kill", old, um, mode, kind, pcs, fault, cbm, name, j] =>
+    match parseOld? old, parseOct? um, parseOct? mode, parsePieces? pcs, parseFault? fault, parseCb? cbm, j.toNat? with
+    | some old, some um, some mode, some sizes, some (f, e), some cb, some j =>
       let pieces := mkPieces sizes
-      match scenario st.N kind mode pieces f with
+      match scenario st.N kind mode pieces cb f with
       | some r =>
         let acts := r.2.take (killIndex r.2 name j)
         let fs := run um (fs0 old) acts
         (st, s!"seq={showSeq e acts} dst={showState (fs dstP)} tmp={showState (fs tmpP)} reader={if readerOk um old (newFile mode um pieces) acts then "ok" else "BAD"}")
       | none => (st, "bad-op")
-    | _, _, _, _, _, _ => (st, "bad-op")
+    | _, _, _, _, _, _, _ => (st, "bad-op")
   | ["reset", old, um] =>
     match parseOld? old, parseOct? um with
     | some old, some um => ({ st with umask := um, fs := fs0 old, file := none, off := 0, live := true }, "reset")
